@@ -2,23 +2,24 @@
    value and that value conforms (equivalently: validates with zero errors). *)
 From Coq Require Import PrimFloat Permutation.
 Require Import D42.Prelude D42.PyFloat D42.Value D42.Regex D42.Schema D42.Validate D42.Conforms
-               D42.PyRandom D42.RegexGen D42.Generate D42.Sat.
+               D42.PyRandom D42.RegexGen D42.ReSupported D42.Generate D42.Sat.
 Require Import D42Gen.GenConsts.
 Require Import D42P.ListLemmas D42P.ScalarSpec D42P.ValueLemmas D42P.ContainerSpec D42P.ValidateSpec
-               D42P.FromNativeSpec D42P.SubstLemmas D42P.SubstNarrows D42P.RandomSpec D42P.GenerateScalar D42P.RegexGenSpec D42P.RegexGenMatch.
+               D42P.FromNativeSpec D42P.SubstLemmas D42P.SubstNarrows D42P.RandomSpec D42P.GenerateScalar D42P.RegexGenSpec D42P.RegexGenMatch D42P.RegexGenTotal.
 Open Scope Z_scope.
 
 Definition gsound (w : world) (s : schema) : Prop := returns (gen w s) (conforms s).
 
 (* ---- str with a pattern ---- *)
 Lemma g_str_pattern_sound w src p :
-  world_ok w -> re_modelled p = true -> re_total w p ->
+  world_ok w -> re_modelled p = true -> re_total p = true ->
   returns (g_str w None None None None None None (Some (src, p)))
           (conforms (SStr None None None None None None (Some (src, p)))).
 Proof.
   intros [_ Hperm] Hmod Htot. unfold g_str.
   eapply returns_bind with (P := fun s => searchb p s = Some true).
-  - intros t. destruct (Htot t) as (s & t' & E). exists s, t'. split; auto.
+  - intros t. destruct (gen_re_total _ (w_perm w) Hperm p Htot t) as (s & t' & E & _).
+    exists s, t'. split; auto.
     eapply (regen_validates_lemma (w_perm w)); eauto. apply default_alphabets_ok.
   - intros s Hs. apply returns_ret. exists s. cbn. unfold len_ok. cbn. repeat split; auto.
 Qed.
